@@ -811,9 +811,9 @@ func (g *jgen) tplRandom(maxSubs int) *jScenario {
 
 func genJoe(c *Ctx) {
 	g := &jgen{c: c, r: c.R}
-	mult, maxSubs := 1, 4
+	mult, maxSubs := 2, 4 // quick: 740 scenarios, about 6 s
 	if c.Thorough {
-		mult, maxSubs = 10, 8
+		mult, maxSubs = 20, 8 // thorough: 7400 scenarios, about 80 s
 	}
 	for n := 0; n < 60*mult; n++ {
 		g.emit("joe", "topics", g.tplTopics(maxSubs))
@@ -1123,9 +1123,9 @@ func (g *jgen) tplReplayRandom(maxSubs int) *jScenario {
 
 func genJoeReplay(c *Ctx) {
 	g := &jgen{c: c, r: c.R}
-	mult, maxSubs := 1, 4
+	mult, maxSubs := 2, 4 // quick: 520 scenarios, about 4 s
 	if c.Thorough {
-		mult, maxSubs = 10, 8
+		mult, maxSubs = 20, 8 // thorough: 5200 scenarios, about 70 s
 	}
 	for n := 0; n < 200*mult; n++ {
 		s, _, _ := g.tplResume(maxSubs)
